@@ -61,7 +61,7 @@ func RepoCorpus() (native [][]byte, json [][]byte) {
 var hostileTokens = []string{
 	"{", "}", "[", "]", "(", ")", "\"", "\"\"", "${", "%{", "~}", "${~", "$${", "%%{", "}", "<<EOT\n", "<<-EOT\n", "\nEOT\n", "EOT", "<<", "<<-",
 	"for", "in", "if", "else", "endif", "endfor", "null", "true", "false", "=>", "...", "=", ":", "?", ",", "\n", "\r\n", "\r", ".", ".*", "[*]", "*",
-	"+", "-", "!", "&&", "||", "==", "!=", "<=", ">=", "<", ">", "/", "%", "/*", "*/", "//", "#", "\\", "\\\"", "\\u", "\\u00", "\\U0010FFFF", "\\x",
+	"+", "-", "!", "&&", "||", "==", "!=", "<=", ">=", "<", ">", "/", "%", "/*", "*/", "//", "#", "\\", "\\\"", "\\u", "\\u00", "\\U0010FFFF", "\\x", "\\ud800", "\\uDFFF", "\\U0000dc00", "\\U00110000", "\\uD83D\\uDE00", "\\uFFFF", "\\U0010FFFE", "\\u0000", "\\Uffffffff",
 	"1e", "1e9999999", "0x10", "1.", ".5", "1.5.5", "::", "a::b", "dynamic", "content", "for_each", "\t", " ", "\x00", "\xff", "\xc0\xaf", "\xed\xa0\x80", "\xf4\x90\x80\x80", "\xe2\x82", "\ufeff", "\u2028", "é", "\u00a0",
 	"$", "%", "~", "`", "'", "@", "^", "&", "|", ";",
 }
